@@ -789,6 +789,12 @@ def one_case(ctx, case, label="gen", flags=None, deep=True, real=False):
         combined = build_expr(case["expr"], leaves)
         if mode == "free":
             free_args, free_wire = resolve_free(model, case["free"])
+            # another free-parameter analysis made for the same model object before (declaring another parameter
+            # free) is none of this one's business
+            others = [p for p in model.priors_ordered_by_id if all(p is not a for a in free_args)]
+            if others and case.get("decoy", True):
+                ctx.hit("free:other-free-parameter-analysis-made-before")
+                (Scripted("decoy1", [], 1.0, 0.0, []) + Scripted("decoy2", [], 1.0, 0.0, [])).with_free_parameters(others[-1])
             combined = combined.with_free_parameters(*free_args)
     except Exception as e:
         fail("C15-combine-raises", f"combining analyses raised {type(e).__name__}", str(e)[:200])
